@@ -4,6 +4,11 @@ use crate::Ctx;
 use serde_json::Value;
 
 pub mod c01;
+pub mod c05;
+pub mod c07;
+pub mod c08;
+pub mod c09;
+pub mod c20;
 
 pub struct Monitor {
     pub id: &'static str,
@@ -14,5 +19,5 @@ pub struct Monitor {
 }
 
 pub fn all() -> Vec<Monitor> {
-    vec![c01::MONITOR]
+    vec![c01::MONITOR, c05::MONITOR, c07::MONITOR, c08::MONITOR_C08, c09::MONITOR, c08::MONITOR_C10, c20::MONITOR]
 }
